@@ -260,10 +260,13 @@ Proof.
   - (* settle *)
     inversion Ho; subst so. cbn. rewrite Rp, Rl. split; [|reflexivity]. repeat split; assumption.
   - (* reply *)
-    destruct running; [|discriminate]. destruct fe; try discriminate. inversion Ho; subst so. clear Ho.
+    destruct fe; try discriminate. inversion Ho; subst so. clear Ho.
     cbn [step sstep]. rewrite <- Rl. destruct (nth_error (s_calls s) i) as [c|].
-    + rewrite reply_closure_spec. cbn. split; [repeat split; assumption|].
-      destruct (s_reply_sent (c_deadline c) now); reflexivity.
+    + destruct running.
+      * rewrite reply_closure_spec. unfold s_reply_out. rewrite andb_true_r. cbn. split; [repeat split; assumption|].
+        destruct (s_reply_sent (c_deadline c) now); reflexivity.
+      * unfold reply_closure, s_reply_out. rewrite andb_false_r.
+        destruct (c_deadline c <? now); cbn; (split; [repeat split; assumption|reflexivity]).
     + cbn. split; [repeat split; assumption|reflexivity].
   - (* disconnect *)
     inversion Ho; subst so. clear Ho. cbn [step sstep]. destruct fe; cbn; (split; [|reflexivity]).
